@@ -7,9 +7,10 @@
 import PygModel.Tree
 import PygProofs.Lemmas.TreeLemmas
 import PygProofs.Lemmas.TreeMerge
+import PygProofs.Lemmas.TreeHeapLemmas
 
 namespace Pyg.Props.C15
-open Pyg Pyg.Tree Pyg.DA
+open Pyg Pyg.Tree Pyg.DA Pyg.TreeHeap
 
 /-- `tree_keys` and `tree_values` are the paths and the leaves of `tree_items`, in the same order -/
 theorem keys_values_of_items (t : Val) :
@@ -132,6 +133,52 @@ theorem update_one_leaf (kvs : List (String × Val)) (k : String) (v : Val) (ig 
 theorem update_leaf_other (kvs : List (String × Val)) (k j : String) (v : Val) (ig : List Val)
     (hj : j ≠ k) : lookup j (setKVs kvs [k] v ig) = lookup j kvs :=
   lookup_setKVs_other [k] kvs v ig j (by simp [Ne.symm hj])
+
+/-! ### the heap model: "neither t nor u is modified at any depth" -/
+
+/-- `update_frame`: in the heap model of the REPAIRED `tree_update` (dict nodes in a heap, `copy`,
+`base()`, item assignments; PygModel/TreeHeap.lean), for ANY heap (sharing, cycles, dangling addresses
+allowed), any addresses `t`, `u` and any fuel: if the call returns, every item assignment it made
+targets a node allocated during the call, so every node that existed before the call — in particular
+every node reachable from `t` or `u`, at any depth — is unchanged; the result is a new node. -/
+theorem update_frame (f : Nat) (m : Mem) (t u : Nat) (ig : List Val) (m' : Mem) (r : Nat)
+    (h : treeUpdateH f m t u ig = .ok (m', r)) :
+    (∃ writes, m'.log = writes ++ m.log ∧ ∀ a ∈ writes, m.heap.length ≤ a) ∧
+    (∀ a, a < m.heap.length → m'.heap[a]? = m.heap[a]?) ∧ r = m.heap.length := by
+  simp only [treeUpdateH] at h
+  split at h
+  · cases h
+  · next its _ =>
+    obtain ⟨hr, hs, _⟩ := itemsToTreeH_safe f m its t ig m' r h
+    exact ⟨hs.log, hs.same, hr⟩
+
+/-- hence both operands read back as the same trees after the call -/
+theorem update_operands_unchanged (f : Nat) (m : Mem) (t u : Nat) (ig : List Val) (m' : Mem) (r : Nat)
+    (h : treeUpdateH f m t u ig = .ok (m', r)) (g : Nat) (x : Ref) (v : Val)
+    (hx : readH m.heap g x = some v) : readH m'.heap g x = some v := by
+  simp only [treeUpdateH] at h
+  split at h
+  · cases h
+  · next its _ =>
+    exact (itemsToTreeH_safe f m its t ig m' r h).2.1.readH (Nat.le_refl _) g x v hx
+
+/-- F7: the code before the fix (`copy(tree)`, one level) violates the frame property:
+`t = {'a': {'b': 1}}; tree_update(t, {'a': {'c': 2}})` writes `c` into the node of `t['a']` -/
+private def mF7 : Mem :=
+  ⟨[[("b", .val (.cell (.int 1)))], [("a", .ptr 0)], [("c", .val (.cell (.int 2)))], [("a", .ptr 2)]], []⟩
+
+theorem update_frame_shallow_false :
+    ∃ m', treeUpdateShallow 3 mF7 1 3 [] = .ok (m', 4) ∧ m'.log = [0] ∧
+      m'.heap[0]? = some [("b", .val (.cell (.int 1))), ("c", .val (.cell (.int 2)))] ∧
+      readH mF7.heap 3 (.ptr 1) = some (.dict [("a", .dict [("b", .cell (.int 1))])]) ∧
+      readH m'.heap 3 (.ptr 1) = some (.dict [("a", .dict [("b", .cell (.int 1)), ("c", .cell (.int 2))])]) :=
+  ⟨_, rfl, rfl, rfl, rfl, rfl⟩
+
+/-- the repaired code on the same heap: succeeds, writes only the new nodes 4 and 5 -/
+example : ∃ m', treeUpdateH 3 mF7 1 3 [] = .ok (m', 4) ∧ m'.log = [5, 4] ∧
+    readH m'.heap 3 (.ptr 1) = some (.dict [("a", .dict [("b", .cell (.int 1))])]) ∧
+    readH m'.heap 3 (.ptr 4) = some (.dict [("a", .dict [("b", .cell (.int 1)), ("c", .cell (.int 2))])]) :=
+  ⟨_, rfl, rfl, rfl, rfl⟩
 
 /-! ### non-vacuity / evaluation of the full statement on concrete trees -/
 
